@@ -32,6 +32,7 @@ cd /verif; unset CARGO_TARGET_DIR
 cp "$PATCH" "$OUT/patch.diff"; cp "$DEMO" "$OUT/demo.rs"
 results=""
 if [ -n "$(git -C /repo status --porcelain --untracked-files=no)" ]; then echo "repo dirty"; exit 2; fi
+rm -rf /tmp/evidence-backup-$NAME; cp -r /verif/evidence /tmp/evidence-backup-$NAME
 git -C /repo apply "$PATCH" || { echo "cannot apply to /repo"; exit 3; }
 for p in $PROP "$@"; do
   o=$(./check $p ${TIER:-quick} 2>&1); c=$?
@@ -40,6 +41,8 @@ for p in $PROP "$@"; do
   echo "$NAME check $p exit=$c $sig"
 done
 git -C /repo checkout -- .
+# evidence written while a mutant was applied is not evidence about the tree
+rm -rf /verif/evidence; mv /tmp/evidence-backup-$NAME /verif/evidence
 cat > "$OUT/meta.json" <<EOM
 {
  "name": "$NAME",
